@@ -194,6 +194,8 @@ pub fn spath_std<T: Shape>(mut s: &[T], toks: &[&str]) -> String {
             "range" => { s = &s[a..b]; }
             "rangeto" => { s = &s[..a]; }
             "rangefrom" => { s = &s[a..]; }
+            // the Option-returning accessor with a range: `None` ends the walk
+            "getr" => match s.get(a..b) { Some(x) => { s = x; } None => return "none".into() },
             "incl" => { s = &s[a..=b]; }
             "first" => return match s.first() { Some(e) => format!("some{}", el_ids(e)), None => "none".into() },
             "last" => return match s.last() { Some(e) => format!("some{}", el_ids(e)), None => "none".into() },
@@ -223,6 +225,7 @@ pub fn mpath_std<T: Shape>(s: &mut [T], toks: &[&str]) -> String {
         "range" => mpath_std(&mut s[a..b], rest),
         "rangeto" => mpath_std(&mut s[..a], rest),
         "rangefrom" => mpath_std(&mut s[a..], rest),
+        "getr" => match s.get_mut(a..b) { Some(x) => mpath_std(x, rest), None => "none".into() },
         "incl" => mpath_std(&mut s[a..=b], rest),
         "first" => match s.first_mut() { Some(e) => welem(e, rest), None => "none".into() },
         "last" => match s.last_mut() { Some(e) => welem(e, rest), None => "none".into() },
@@ -344,6 +347,7 @@ macro_rules! interp {
                         "range" => { s = ::soa_derive::SoAIndex::index(a..b, s); }
                         "rangeto" => { s = ::soa_derive::SoAIndex::index(..a, s); }
                         "rangefrom" => { s = ::soa_derive::SoAIndex::index(a.., s); }
+                        "getr" => match ::soa_derive::SoAIndex::get(a..b, s) { Some(x) => { s = x; } None => return "none".into() },
                         "incl" => { s = ::soa_derive::SoAIndex::index(a..=b, s); }
                         "first" => return match s.first() { Some(e) => format!("some{}", rids_s(&e)), None => "none".into() },
                         "last" => return match s.last() { Some(e) => format!("some{}", rids_s(&e)), None => "none".into() },
@@ -374,6 +378,7 @@ macro_rules! interp {
                     "range" => mpath(::soa_derive::SoAIndexMut::index_mut(a..b, s), rest),
                     "rangeto" => mpath(::soa_derive::SoAIndexMut::index_mut(..a, s), rest),
                     "rangefrom" => mpath(::soa_derive::SoAIndexMut::index_mut(a.., s), rest),
+                    "getr" => match ::soa_derive::SoAIndexMut::get_mut(a..b, s) { Some(x) => mpath(x, rest), None => "none".into() },
                     "incl" => mpath(::soa_derive::SoAIndexMut::index_mut(a..=b, s), rest),
                     "first" => match s.first_mut() { Some(e) => welem(e, rest), None => "none".into() },
                     "last" => match s.last_mut() { Some(e) => welem(e, rest), None => "none".into() },
